@@ -396,6 +396,53 @@ void HttpMessage::readBody()
 	//printf("readbody end\n");
 }
 
+// The target of a redirection: a Location that is a relative reference is resolved against the URL of the request
+// (RFC 7231 7.1.2, RFC 3986 5.2: same scheme and host; a relative path replaces the last segment; "." and ".." are removed)
+static String resolveLocation(const String& base, const String& loc)
+{
+	int k = 0;
+	while (isalnum((unsigned char)loc[k]) || loc[k] == '+' || loc[k] == '-' || loc[k] == '.')
+		k++;
+	if (k > 0 && loc[k] == ':') // it has a scheme: a complete URL
+		return loc;
+	int s = base.indexOf("://");
+	if (loc.startsWith("//")) // another host, same scheme
+		return base.substring(0, s > 0 ? s + 1 : 0) + loc;
+	int p = base.indexOf('/', s > 0 ? s + 3 : 0);
+	String root = p < 0 ? base : base.substring(0, p);
+	String path = p < 0 ? String("/") : base.substring(p);
+	int e = 0;
+	while (path[e] != '\0' && path[e] != '?' && path[e] != '#')
+		e++;
+	path = path.substring(0, e); // the path of the request without its query
+	if (loc[0] == '?' || loc[0] == '#')
+		return root + path + loc;
+	e = 0;
+	while (loc[e] != '\0' && loc[e] != '?' && loc[e] != '#')
+		e++;
+	String merged = loc[0] == '/' ? loc.substring(0, e) : path.substring(0, path.lastIndexOf('/') + 1) + loc.substring(0, e);
+	Array<String> in = merged.split('/'), out; // merged starts with '/': in[0] is empty
+	for (int i = 1; i < in.length(); i++)
+	{
+		bool last = i == in.length() - 1;
+		if (in[i] == "..")
+		{
+			if (out.length() > 0)
+				out.removeLast();
+			if (last)
+				out << String();
+		}
+		else if (in[i] == ".")
+		{
+			if (last)
+				out << String();
+		}
+		else
+			out << in[i];
+	}
+	return root + "/" + out.join("/") + loc.substring(e);
+}
+
 HttpResponse Http::request(HttpRequest& request)
 {
 	Socket socket((Socket::Ptr)NULL);
@@ -495,7 +542,7 @@ HttpResponse Http::request(HttpRequest& request)
 	{
 		socket.close();
 		HttpRequest req(request);
-		req.setUrl(loc);
+		req.setUrl(resolveLocation(request.url(), loc));
 		Http::Progress progress = req._progress;
 		req.onProgress(progress);
 		int n = request.recursion() + 1;
